@@ -8,7 +8,7 @@ import Blots.Lemmas.EvalEnvClosed
     * every value bound in the environment, the function called and its arguments are closed
       (`ClosedV`, `ClosedE`),
     * `inputs` resolves identically with the replaced frames,
-    * (expression functions) call depth > 0, n > 0, the expression is `wf` and each of its free
+    * (expression functions) call depth > 0, n > 0, the expression has no nested `output` and each of its free
       names is `inputs` or bound in the first `n` frames;
   and the result (value, environment) is closed again w.r.t. the display names of the final
   state, which only grew.
@@ -16,21 +16,21 @@ import Blots.Lemmas.EvalEnvClosed
 namespace Blots
 
 structure Coin (ops : NumOps) (tl' : List Frame) (fuel : Nat) : Prop where
-  eval : ∀ depth e n s, 0 < depth → 0 < n → SOK n tl' s → wf e = true → FOK n s.env (FreeIn · e) →
+  eval : ∀ depth e n s, 0 < depth → 0 < n → SOK n tl' s → noOutput e = true → FOK n s.env (FreeIn · e) →
     Sim n tl' ClosedV s (eval ops fuel depth e s) (eval ops fuel depth e (retail n tl' s))
-  evalList : ∀ depth es n s, 0 < depth → 0 < n → SOK n tl' s → wfList es = true →
+  evalList : ∀ depth es n s, 0 < depth → 0 < n → SOK n tl' s → noOutputList es = true →
     FOK n s.env (FreeInList · es) →
     Sim n tl' ClosedL s (evalList ops fuel depth es s) (evalList ops fuel depth es (retail n tl' s))
-  evalItems : ∀ depth is n s, 0 < depth → 0 < n → SOK n tl' s → wfItems is = true →
+  evalItems : ∀ depth is n s, 0 < depth → 0 < n → SOK n tl' s → noOutputItems is = true →
     FOK n s.env (FreeInItems · is) →
     Sim n tl' ClosedL s (evalItems ops fuel depth is s) (evalItems ops fuel depth is (retail n tl' s))
-  evalEntries : ∀ depth es acc n s, 0 < depth → 0 < n → SOK n tl' s → wfEntries es = true →
+  evalEntries : ∀ depth es acc n s, 0 < depth → 0 < n → SOK n tl' s → noOutputEntries es = true →
     FOK n s.env (FreeInEntries · es) → ClosedR s.names acc →
     Sim n tl' ClosedR s (evalEntries ops fuel depth es acc s) (evalEntries ops fuel depth es acc (retail n tl' s))
-  evalDoStmt : ∀ depth e n s, 0 < depth → 0 < n → SOK n tl' s → wf e = true → FOK n s.env (FreeIn · e) →
+  evalDoStmt : ∀ depth e n s, 0 < depth → 0 < n → SOK n tl' s → noOutput e = true → FOK n s.env (FreeIn · e) →
     Sim n tl' ClosedV s (evalDoStmt ops fuel depth e s) (evalDoStmt ops fuel depth e (retail n tl' s))
-  evalDo : ∀ depth stmts ret n s, 0 < depth → 0 < n → SOK n tl' s → wfItems stmts = true →
-    wfItem ret = true → FOK n s.env (FreeInDo · stmts ret) →
+  evalDo : ∀ depth stmts ret n s, 0 < depth → 0 < n → SOK n tl' s → noOutputItems stmts = true →
+    noOutputItem ret = true → FOK n s.env (FreeInDo · stmts ret) →
     Sim n tl' ClosedV s (evalDo ops fuel depth stmts ret s) (evalDo ops fuel depth stmts ret (retail n tl' s))
   callFn : ∀ fv this args depth n s, SOK n tl' s → ClosedV s.names fv → ClosedV s.names this →
     ClosedL s.names args →
@@ -559,13 +559,13 @@ theorem coin_evalBin {fuel : Nat} (ih : Coin ops tl' fuel) (depth : Nat) (op : B
 /-! ### lists of expressions, record entries -/
 
 theorem coin_evalList {fuel : Nat} (ih : Coin ops tl' fuel) (depth : Nat) (es : List Expr) (n : Nat) (s : ES)
-    (hd : 0 < depth) (hn : 0 < n) (hS : SOK n tl' s) (hw : wfList es = true)
+    (hd : 0 < depth) (hn : 0 < n) (hS : SOK n tl' s) (hw : noOutputList es = true)
     (hF : FOK n s.env (FreeInList · es)) :
     Sim n tl' ClosedL s (evalList ops (fuel + 1) depth es s) (evalList ops (fuel + 1) depth es (retail n tl' s)) := by
   cases es with
   | nil => rw [evalList, evalList]; exact ⟨rfl, Post.same hS.cl (by intro v h; cases h; simp)⟩
   | cons e es =>
-    simp only [wfList, Bool.and_eq_true] at hw
+    simp only [noOutputList, Bool.and_eq_true] at hw
     rw [evalList, evalList]
     obtain ⟨e1, P1⟩ := ih.eval depth e n s hd hn hS hw.1 (hF.imp fun x hx => .head hx)
     rw [e1]; clear e1
@@ -589,7 +589,7 @@ theorem coin_evalList {fuel : Nat} (ih : Coin ops tl' fuel) (depth : Nat) (es : 
     | _ => exact ⟨rfl, P1.re (by intro _ h; cases h)⟩
 
 theorem coin_evalItems {fuel : Nat} (ih : Coin ops tl' fuel) (depth : Nat) (is : List Item) (n : Nat) (s : ES)
-    (hd : 0 < depth) (hn : 0 < n) (hS : SOK n tl' s) (hw : wfItems is = true)
+    (hd : 0 < depth) (hn : 0 < n) (hS : SOK n tl' s) (hw : noOutputItems is = true)
     (hF : FOK n s.env (FreeInItems · is)) :
     Sim n tl' ClosedL s (evalItems ops (fuel + 1) depth is s)
       (evalItems ops (fuel + 1) depth is (retail n tl' s)) := by
@@ -597,7 +597,7 @@ theorem coin_evalItems {fuel : Nat} (ih : Coin ops tl' fuel) (depth : Nat) (is :
   | nil => rw [evalItems, evalItems]; exact ⟨rfl, Post.same hS.cl (by intro v h; cases h; simp)⟩
   | cons i is =>
     obtain ⟨_, e, _⟩ := i
-    simp only [wfItems, wfItem, Bool.and_eq_true] at hw
+    simp only [noOutputItems, noOutputItem, Bool.and_eq_true] at hw
     rw [evalItems, evalItems]
     obtain ⟨e1, P1⟩ := ih.eval depth e n s hd hn hS hw.1 (hF.imp fun x hx => .head hx)
     rw [e1]; clear e1
@@ -621,7 +621,7 @@ theorem coin_evalItems {fuel : Nat} (ih : Coin ops tl' fuel) (depth : Nat) (is :
     | _ => exact ⟨rfl, P1.re (by intro _ h; cases h)⟩
 
 theorem coin_evalEntries {fuel : Nat} (ih : Coin ops tl' fuel) (depth : Nat) (es : List Entry) (acc : Frame)
-    (n : Nat) (s : ES) (hd : 0 < depth) (hn : 0 < n) (hS : SOK n tl' s) (hw : wfEntries es = true)
+    (n : Nat) (s : ES) (hd : 0 < depth) (hn : 0 < n) (hS : SOK n tl' s) (hw : noOutputEntries es = true)
     (hF : FOK n s.env (FreeInEntries · es)) (hacc : ClosedR s.names acc) :
     Sim n tl' ClosedR s (evalEntries ops (fuel + 1) depth es acc s)
       (evalEntries ops (fuel + 1) depth es acc (retail n tl' s)) := by
@@ -629,7 +629,7 @@ theorem coin_evalEntries {fuel : Nat} (ih : Coin ops tl' fuel) (depth : Nat) (es
   | nil => rw [evalEntries, evalEntries]; exact ⟨rfl, Post.same hS.cl (by intro v h; cases h; exact hacc)⟩
   | cons en es =>
     obtain ⟨_, key, value, _⟩ := en
-    simp only [wfEntries, wfEntry, Bool.and_eq_true] at hw
+    simp only [noOutputEntries, noOutputEntry, Bool.and_eq_true] at hw
     have hFt : FOK n s.env (FreeInEntries · es) := hF.imp fun x hx => .tail hx
     cases key with
     | static kk =>
@@ -647,7 +647,7 @@ theorem coin_evalEntries {fuel : Nat} (ih : Coin ops tl' fuel) (depth : Nat) (es
         exact ⟨rfl, P1.trans P2⟩
       | _ => exact ⟨rfl, P1.re (by intro _ h; cases h)⟩
     | dyn ke =>
-      simp only [wfKey] at hw
+      simp only [noOutputKey] at hw
       rw [evalEntries, evalEntries]
       obtain ⟨e1, P1⟩ := ih.eval depth ke n s hd hn hS hw.1.1 (hF.imp fun x hx => .head (.dynK hx))
       rw [e1]; clear e1
@@ -689,7 +689,7 @@ theorem coin_evalEntries {fuel : Nat} (ih : Coin ops tl' fuel) (depth : Nat) (es
         exact ih.evalEntries depth es (insertAL nm v acc) n s hd hn hS hw.2 hFt
           (closedR_insertAL (closed_envGet hS.cl hg) hacc)
     | spread se =>
-      simp only [wfKey] at hw
+      simp only [noOutputKey] at hw
       rw [evalEntries, evalEntries]
       obtain ⟨e1, P1⟩ := ih.eval depth se n s hd hn hS hw.1.1 (hF.imp fun x hx => .head (.spread hx))
       rw [e1]; clear e1
@@ -750,7 +750,7 @@ theorem eq_assign (n : Nat) (s1 : ES) (val : Value) (nm : String) (cv : Value) (
   simp only [retail, retailE_insert n tl' s2.env nm val hn hk2]
 
 theorem coin_eval {fuel : Nat} (ih : Coin ops tl' fuel) (depth : Nat) (e : Expr) (n : Nat) (s : ES)
-    (hd : 0 < depth) (hn : 0 < n) (hS : SOK n tl' s) (hw : wf e = true) (hF : FOK n s.env (FreeIn · e)) :
+    (hd : 0 < depth) (hn : 0 < n) (hS : SOK n tl' s) (hw : noOutput e = true) (hF : FOK n s.env (FreeIn · e)) :
     Sim n tl' ClosedV s (eval ops (fuel + 1) depth e s) (eval ops (fuel + 1) depth e (retail n tl' s)) := by
   have hE := hS.ne hn
   cases e with
@@ -759,7 +759,7 @@ theorem coin_eval {fuel : Nat} (ih : Coin ops tl' fuel) (depth : Nat) (e : Expr)
   | bool x => rw [eval, eval]; exact ⟨rfl, Post.same hS.cl (by intro v h; cases h; simp)⟩
   | null => rw [eval, eval]; exact ⟨rfl, Post.same hS.cl (by intro v h; cases h; simp)⟩
   | builtin nm => rw [eval, eval]; exact ⟨rfl, Post.same hS.cl (by intro v h; cases h; simp)⟩
-  | output inner => simp [wf] at hw
+  | output inner => simp [noOutput] at hw
   | ident nm =>
     rw [eval, eval]
     split
@@ -791,7 +791,7 @@ theorem coin_eval {fuel : Nat} (ih : Coin ops tl' fuel) (depth : Nat) (e : Expr)
         exact ⟨rfl, Post.same hS.cl (by intro v' h; cases h; exact closed_lookupAL_getD (by simpa using hv))⟩
       | _ => exact ⟨rfl, Post.same hS.cl (by intro _ h; cases h)⟩
   | un op inner =>
-    simp only [wf] at hw
+    simp only [noOutput] at hw
     rw [eval, eval]
     obtain ⟨e1, P1⟩ := ih.eval depth inner n s hd hn hS hw (hF.imp fun x hx => .un hx)
     rw [e1]; clear e1
@@ -803,7 +803,7 @@ theorem coin_eval {fuel : Nat} (ih : Coin ops tl' fuel) (depth : Nat) (e : Expr)
       split <;> exact ⟨rfl, P1.re (by intro v h; cases h <;> simp)⟩
     | _ => exact ⟨rfl, P1.re (by intro _ h; cases h)⟩
   | fact inner =>
-    simp only [wf] at hw
+    simp only [noOutput] at hw
     rw [eval, eval]
     obtain ⟨e1, P1⟩ := ih.eval depth inner n s hd hn hS hw (hF.imp fun x hx => .fact hx)
     rw [e1]; clear e1
@@ -818,7 +818,7 @@ theorem coin_eval {fuel : Nat} (ih : Coin ops tl' fuel) (depth : Nat) (e : Expr)
       | _ => exact ⟨rfl, P1.re (by intro _ h; cases h)⟩
     | _ => exact ⟨rfl, P1.re (by intro _ h; cases h)⟩
   | spread inner =>
-    simp only [wf] at hw
+    simp only [noOutput] at hw
     rw [eval, eval]
     obtain ⟨e1, P1⟩ := ih.eval depth inner n s hd hn hS hw (hF.imp fun x hx => .spread hx)
     rw [e1]; clear e1
@@ -834,7 +834,7 @@ theorem coin_eval {fuel : Nat} (ih : Coin ops tl' fuel) (depth : Nat) (e : Expr)
       | _ => exact ⟨rfl, P1.re (by intro _ h; cases h)⟩
     | _ => exact ⟨rfl, P1.re (by intro _ h; cases h)⟩
   | dot inner field =>
-    simp only [wf] at hw
+    simp only [noOutput] at hw
     rw [eval, eval]
     obtain ⟨e1, P1⟩ := ih.eval depth inner n s hd hn hS hw (hF.imp fun x hx => .dot hx)
     rw [e1]; clear e1
@@ -849,7 +849,7 @@ theorem coin_eval {fuel : Nat} (ih : Coin ops tl' fuel) (depth : Nat) (e : Expr)
       | _ => exact ⟨rfl, P1.re (by intro _ h; cases h)⟩
     | _ => exact ⟨rfl, P1.re (by intro _ h; cases h)⟩
   | cond c a b =>
-    simp only [wf, Bool.and_eq_true] at hw
+    simp only [noOutput, Bool.and_eq_true] at hw
     rw [eval, eval]
     obtain ⟨e1, P1⟩ := ih.eval depth c n s hd hn hS hw.1.1 (hF.imp fun x hx => .condC hx)
     rw [e1]; clear e1
@@ -873,7 +873,7 @@ theorem coin_eval {fuel : Nat} (ih : Coin ops tl' fuel) (depth : Nat) (e : Expr)
       | _ => exact ⟨rfl, P1.re (by intro _ h; cases h)⟩
     | _ => exact ⟨rfl, P1.re (by intro _ h; cases h)⟩
   | access e i =>
-    simp only [wf, Bool.and_eq_true] at hw
+    simp only [noOutput, Bool.and_eq_true] at hw
     rw [eval, eval]
     obtain ⟨e1, P1⟩ := ih.eval depth e n s hd hn hS hw.1 (hF.imp fun x hx => .accessE hx)
     rw [e1]; clear e1
@@ -904,7 +904,7 @@ theorem coin_eval {fuel : Nat} (ih : Coin ops tl' fuel) (depth : Nat) (e : Expr)
       | _ => exact ⟨rfl, (P1.trans P2).re (by intro _ h; cases h)⟩
     | _ => exact ⟨rfl, P1.re (by intro _ h; cases h)⟩
   | bin op l r =>
-    simp only [wf, Bool.and_eq_true] at hw
+    simp only [noOutput, Bool.and_eq_true] at hw
     rw [eval, eval]
     obtain ⟨e1, P1⟩ := ih.eval depth l n s hd hn hS hw.1 (hF.imp fun x hx => .binL hx)
     rw [e1]; clear e1
@@ -930,7 +930,7 @@ theorem coin_eval {fuel : Nat} (ih : Coin ops tl' fuel) (depth : Nat) (e : Expr)
       | _ => exact ⟨rfl, (P1.trans P2).re (by intro _ h; cases h)⟩
     | _ => exact ⟨rfl, P1.re (by intro _ h; cases h)⟩
   | list items =>
-    simp only [wf] at hw
+    simp only [noOutput] at hw
     rw [eval, eval]
     obtain ⟨e1, P1⟩ := ih.evalItems depth items n s hd hn hS hw (hF.imp fun x hx => .list hx)
     rw [e1]; clear e1
@@ -941,7 +941,7 @@ theorem coin_eval {fuel : Nat} (ih : Coin ops tl' fuel) (depth : Nat) (e : Expr)
       exact ⟨rfl, P1.re (by intro v h; cases h; simpa using closedL_flattenSpreads (P1.val vs rfl))⟩
     | _ => exact ⟨rfl, P1.re (by intro _ h; cases h)⟩
   | record es =>
-    simp only [wf] at hw
+    simp only [noOutput] at hw
     rw [eval, eval]
     obtain ⟨e1, P1⟩ := ih.evalEntries depth es [] n s hd hn hS hw (hF.imp fun x hx => .record hx) (by simp)
     rw [e1]; clear e1
@@ -951,7 +951,7 @@ theorem coin_eval {fuel : Nat} (ih : Coin ops tl' fuel) (depth : Nat) (e : Expr)
     | ok vs => exact ⟨rfl, P1.re (by intro v h; cases h; simpa using P1.val vs rfl)⟩
     | _ => exact ⟨rfl, P1.re (by intro _ h; cases h)⟩
   | assign nm v =>
-    simp only [wf] at hw
+    simp only [noOutput] at hw
     have hcont : ∀ s : ES, s.env ≠ [] →
         alreadyDefined depth (retail n tl' s).env nm = alreadyDefined depth s.env nm :=
       fun s hs => retailE_alreadyDefined n tl' s.env nm depth hd hn hs
@@ -977,7 +977,7 @@ theorem coin_eval {fuel : Nat} (ih : Coin ops tl' fuel) (depth : Nat) (e : Expr)
         exact ⟨by rw [eq_assign n s1 val nm _ hn hne1], post_assign nm _ P1⟩
     | _ => exact ⟨rfl, P1.re (by intro _ h; cases h)⟩
   | lambda args body =>
-    simp only [wf] at hw
+    simp only [noOutput] at hw
     rw [eval, eval]
     split
     · exact ⟨rfl, Post.same hS.cl (by intro _ h; cases h)⟩
@@ -986,7 +986,7 @@ theorem coin_eval {fuel : Nat} (ih : Coin ops tl' fuel) (depth : Nat) (e : Expr)
       unfold captureScope
       apply captureScope_congr
       intro y hy
-      have hfy := (freeVars_iff body _ y (wf_noOutput body hw)).mp hy
+      have hfy := (freeVars_iff body _ y hw).mp hy
       exact agree_of_fok hS hF (x := y) (.lambda hfy.1 hfy.2)
     simp only [hcap]
     refine ⟨rfl, KeysExt.refl _, NamesLe.refl _, hS.cl, ?_⟩
@@ -1001,12 +1001,12 @@ theorem coin_eval {fuel : Nat} (ih : Coin ops tl' fuel) (depth : Nat) (e : Expr)
       · exact Or.inr (Or.inr (Or.inr h))
       · refine Or.inr (Or.inl ?_)
         have hfv : x ∈ freeVars (args.map LArg.name) body :=
-          (freeVars_iff body _ x (wf_noOutput body hw)).mpr ⟨hx, hxa⟩
+          (freeVars_iff body _ x hw).mpr ⟨hx, hxa⟩
         show (lookupAL x (captureScope s.env (freeVars (args.map LArg.name) body))).isSome
-        rw [captureScope_lookup, if_pos ⟨hfv, wf_free body x hw hx⟩]
+        rw [captureScope_lookup, if_pos hfv]
         exact h.get
   | doBlock stmts ret =>
-    simp only [wf, Bool.and_eq_true] at hw
+    simp only [noOutput, Bool.and_eq_true] at hw
     rw [eval, eval]
     have hS1 : SOK (n + 1) tl' { s with env := [] :: s.env } :=
       ⟨by simp; exact hS.len, hS.inp.push' [], closedE_cons.mpr ⟨by simp, hS.cl⟩⟩
@@ -1027,7 +1027,7 @@ theorem coin_eval {fuel : Nat} (ih : Coin ops tl' fuel) (depth : Nat) (e : Expr)
     rw [hdrop]
     exact KeysExt.refl _
   | call f args =>
-    simp only [wf, Bool.and_eq_true] at hw
+    simp only [noOutput, Bool.and_eq_true] at hw
     rw [eval, eval]
     obtain ⟨e1, P1⟩ := ih.eval depth f n s hd hn hS hw.1 (hF.imp fun x hx => .callF hx)
     rw [e1]; clear e1
@@ -1058,14 +1058,14 @@ theorem coin_eval {fuel : Nat} (ih : Coin ops tl' fuel) (depth : Nat) (e : Expr)
 /-! ### do-blocks -/
 
 theorem coin_evalDoStmt {fuel : Nat} (ih : Coin ops tl' fuel) (depth : Nat) (e : Expr) (n : Nat) (s : ES)
-    (hd : 0 < depth) (hn : 0 < n) (hS : SOK n tl' s) (hw : wf e = true) (hF : FOK n s.env (FreeIn · e)) :
+    (hd : 0 < depth) (hn : 0 < n) (hS : SOK n tl' s) (hw : noOutput e = true) (hF : FOK n s.env (FreeIn · e)) :
     Sim n tl' ClosedV s (evalDoStmt ops (fuel + 1) depth e s)
       (evalDoStmt ops (fuel + 1) depth e (retail n tl' s)) := by
   rw [evalDoStmt.eq_def, evalDoStmt.eq_def]
   dsimp only
   cases e with
   | assign nm v =>
-    simp only [wf] at hw
+    simp only [noOutput] at hw
     dsimp only
     split
     · exact ⟨rfl, Post.same hS.cl (by intro _ h; cases h)⟩
@@ -1083,8 +1083,8 @@ theorem coin_evalDoStmt {fuel : Nat} (ih : Coin ops tl' fuel) (depth : Nat) (e :
   | _ => exact ih.eval depth _ n s hd hn hS hw hF
 
 theorem coin_evalDo {fuel : Nat} (ih : Coin ops tl' fuel) (depth : Nat) (stmts : List Item) (ret : Item)
-    (n : Nat) (s : ES) (hd : 0 < depth) (hn : 0 < n) (hS : SOK n tl' s) (hw1 : wfItems stmts = true)
-    (hw2 : wfItem ret = true) (hF : FOK n s.env (FreeInDo · stmts ret)) :
+    (n : Nat) (s : ES) (hd : 0 < depth) (hn : 0 < n) (hS : SOK n tl' s) (hw1 : noOutputItems stmts = true)
+    (hw2 : noOutputItem ret = true) (hF : FOK n s.env (FreeInDo · stmts ret)) :
     Sim n tl' ClosedV s (evalDo ops (fuel + 1) depth stmts ret s)
       (evalDo ops (fuel + 1) depth stmts ret (retail n tl' s)) := by
   cases stmts with
@@ -1094,7 +1094,7 @@ theorem coin_evalDo {fuel : Nat} (ih : Coin ops tl' fuel) (depth : Nat) (stmts :
     exact ih.evalDoStmt depth e n s hd hn hS hw2 (hF.imp fun x hx => .ret hx)
   | cons i rest =>
     obtain ⟨_, e, _⟩ := i
-    simp only [wfItems, wfItem, Bool.and_eq_true] at hw1
+    simp only [noOutputItems, noOutputItem, Bool.and_eq_true] at hw1
     rw [evalDo, evalDo]
     obtain ⟨e1, P1⟩ := ih.evalDoStmt depth e n s hd hn hS hw1.1 (hF.imp fun x hx => .here hx)
     rw [e1]; clear e1
@@ -1214,7 +1214,7 @@ theorem callFn_site_independent (ops : NumOps) (fuel : Nat) (fv this : Value) (a
     bound at that moment, or is `inputs`, or is the name the function gets (recursion through
     the self name: `f = (n) => … f(n - 1) …`) -/
 theorem created_closed (ops : NumOps) (fuel depth : Nat) (ps : List LArg) (body : Expr) (s s1 : ES) (v : Value)
-    (N' : List (Nat × String)) (hN : NamesLe s.names N') (hw : wf body = true) (hE : ClosedE s.names s.env)
+    (N' : List (Nat × String)) (hN : NamesLe s.names N') (hw : noOutput body = true) (hE : ClosedE s.names s.env)
     (hfree : ∀ x, FreeIn x body → x ∉ ps.map LArg.name →
       x = "inputs" ∨ (envGet s.env x).isSome ∨ nameOf N' s.nextId = some x)
     (h : eval ops fuel depth (.lambda ps body) s = (.ok v, s1)) : ClosedV N' v := by
@@ -1234,9 +1234,45 @@ theorem created_closed (ops : NumOps) (fuel depth : Nat) (ps : List LArg) (body 
         · exact Or.inr (Or.inr (Or.inr h))
         · refine Or.inr (Or.inl ?_)
           have hfv : x ∈ freeVars (ps.map LArg.name) body :=
-            (freeVars_iff body _ x (wf_noOutput body hw)).mpr ⟨hx, hxa⟩
-          rw [captureScope_lookup, if_pos ⟨hfv, wf_free body x hw hx⟩]
+            (freeVars_iff body _ x hw).mpr ⟨hx, hxa⟩
+          rw [captureScope_lookup, if_pos hfv]
           exact h
         · exact Or.inr (Or.inr (Or.inl h))
+
+/-! ### concrete values for the examples of Props/C04.lean -/
+
+namespace C04Ex
+
+/-- `g = (t) => [t, y]` with `y ↦ 1` captured -/
+def exG : Value := .lambda 2 [.req "t"] (.list [it (.ident "t"), it (.ident "y")]) [("y", .num F64.one)]
+/-- body `[g(a), y, map([a], g)]`: calls a captured closure directly and through `map` -/
+def exBody : Expr :=
+  .list [it (.call (.ident "g") [.ident "a"]), it (.ident "y"),
+         it (.call (.builtin "map") [.list [it (.ident "a")], .ident "g"])]
+/-- `f = (a) => [g(a), y, map([a], g)]` with `g` and `y ↦ true` captured -/
+def exF : Value := .lambda 1 [.req "a"] exBody [("g", exG), ("y", .bool true)]
+
+theorem exG_closed : ClosedV [] exG := by
+  rw [exG, closedV_lambda]
+  exact ⟨closedFn_of_freeVars (by decide) (by decide), by decide, by simp [ClosedR]⟩
+
+theorem exF_closed : ClosedV [] exF := by
+  rw [exF, closedV_lambda]
+  exact ⟨closedFn_of_freeVars (by decide) (by decide), by decide, by simp [ClosedR, exG_closed]⟩
+
+theorem map_arity : builtinArity "map" = some (.exact 2) := by decide
+
+/-- (D3, fixed) `F = () => (((sqrt) => (() => {sqrt}))(1))()`: no free names; the record
+    shorthand reads a variable spelled like a built-in (which `captureScope` did not capture
+    before the fix) -/
+def d3Body : Expr :=
+  .call (.call (.lambda [.req "sqrt"] (.lambda [] (.record [.mk [] (.short "sqrt") .null none]))) [.num F64.one]) []
+def d3F : Value := .lambda 1 [] d3Body []
+
+/-- `g = (x) => y` with `y` unbound at definition (late binding), captured by `f = (a) => g(a)` -/
+def lateG : Value := .lambda 2 [.req "x"] (.ident "y") []
+def lateF : Value := .lambda 1 [.req "a"] (.call (.ident "g") [.ident "a"]) [("g", lateG)]
+
+end C04Ex
 
 end Blots
